@@ -49,7 +49,7 @@ def items(tier):
     out = []
     temps = ["poisson-linsolve", "linsolve-dense", "linsolve-classchange", "linsolve-diagchange", "linsolve-patternchange", "overhang", "densityfilter", "filterconv",
              "sysofeq", "statcond", "assemble-const", "aggregation-active", "eigensolve-sparse", "eigensolve-dense",
-             "eigensolve-dense-classchange"]
+             "eigensolve-dense-classchange", "assemble-realthencomplex"]
     if not q:
         temps += ["linsolve-dense-lda", "linsolve-classchange-lda", "linsolve-dense3"]
     for t in temps:
@@ -60,12 +60,15 @@ def items(tier):
                 continue
             if t.startswith("eigensolve-dense") and h not in ("two-cycles", "no-sens-first"):
                 continue
+            if t == "assemble-realthencomplex" and h not in ("two-cycles", "no-sens-first"):
+                continue
             if t == "eigensolve-sparse" and (h not in ("partial-seeds", "partial-seeds-rounds", "two-cycles") or (q and h == "two-cycles")):
                 continue
             if h == "partial-seeds-rounds" and t not in ("eigensolve-sparse", "sysofeq"):
                 continue
             out.append(dict(kind="history", id="%s-%s" % (t, h), template=t, hist=h,
-                            **(dict(timeout=600) if t == "eigensolve-sparse" and q else {})))
+                            **(dict(timeout=600) if t == "eigensolve-sparse" and q else {}),
+                            **(dict(logical_dtype=True) if t == "assemble-realthencomplex" else {})))
         out.append(dict(kind="unseeded", id="%s-unseeded" % t, template=t))
     return out
 
@@ -290,7 +293,7 @@ def make(V, template, ncyc=3):
                 sxp.state = V.reals("xp%d" % k, 1)
         return Net(net, ins, list(m.sig_out), ins + list(m.sig_out), setter)
 
-    if template == "assemble-const":
+    if template in ("assemble-const", "assemble-realthencomplex"):
         dom = pym.DomainDefinition(1, 1)
         sx = pym.Signal("x")
         Kc = _mk_sparse(V, V.reals("Kc", (4, 4)))
@@ -298,6 +301,10 @@ def make(V, template, ncyc=3):
         net = pym.Network(m)
 
         def setter(k):
+            if template == "assemble-realthencomplex" and k >= 2:
+                # complex scaling in a later cycle (complex-step check, loss-factor damping) on the same module
+                sx.state = V.cplxs("x%d" % k, 1)
+                return
             sx.state = V.reals("x%d" % k, 1)
         return Net(net, [sx], list(m.sig_out), [sx] + list(m.sig_out), setter)
 
@@ -414,6 +421,9 @@ SCEN = dict(history=sc_history, unseeded=sc_unseeded)
 def run_item(cfg, tier):
     from symx import oracles
     oracles.CRAMER_MAX_N = 4
+    if cfg.get("logical_dtype"):
+        from symx.array import enable_logical_dtype
+        enable_logical_dtype(True)      # forked worker only: NumPy's real/complex assignment and in-place rules
     return symbolic_run(SCEN[cfg["kind"]], cfg, tier, max_paths=cfg.get("max_paths", 80), rtol=1e-5)
 
 
